@@ -37,11 +37,16 @@ func (p *nestPolicy) Deliver(n *wire.Net, r wire.Record) [][]byte {
 }
 func (p *nestPolicy) OnIdle(n *wire.Net) bool { return false }
 
-func nestedSessionsUnit(flavour int) harness.Unit {
-	fn := []string{"GMSSL e013", "GMSSL e053", "TLS 1.2"}[flavour]
+func nestedSessionsUnit(flavourA, flavourB int) harness.Unit {
+	fns := []string{"GMSSL e013", "GMSSL e053", "TLS 1.2"}
+	fn := fns[flavourA]
+	if flavourB != flavourA {
+		fn += " with " + fns[flavourB] + " inside"
+	}
 	return harness.Unit{Name: "nested-sessions/" + fn, Run: func(c *harness.Ctx) {
 		p := tlsk.Get()
 		mk := func(which int, seed byte) (*gmtls.Config, *gmtls.Config, [][]byte) {
+			flavour := []int{flavourA, flavourB}[which]
 			name := []string{tlsk.ServerName, "other.example.test"}[which]
 			if flavour == 2 {
 				certs := []gmtls.Certificate{p.ECDSA, p.StdServerCert([]string{"other.example.test"}, true)}
